@@ -187,7 +187,10 @@ def o93(ctx):
     if not ok:
         ctx.finding(q, trees[0].node, "the tree must hold the complete positions (x+shift) of the particles of the group being processed",
                     trees[0].node, m)
-    pit = loops[1].args[0]
+    # the reference points: what the ball query is centred on -- the (n, 3) array handed to one batched query, or the array whose rows a
+    # per-point loop walks over
+    qarg = balls[0].args[1] if len(balls[0].args) > 1 else balls[0].kwargs.get("x")
+    pit = qarg if isinstance(qarg, Arr) and qarg.ndim == 2 and not qarg.single_row else loops[1].args[0]
     ctx.count(1, {"query points": tm.show(to_term(pit))[:160]})
     okp = isinstance(pit, Arr) and len(pit.cols) == 3
     if okp:
@@ -294,6 +297,8 @@ def o94(ctx):
     cases = [("inside", {}, True)]
     for k, c in enumerate("xyz"):
         cases.append((f"negative {c}", {c: -3.0}, False))
+        cases.append((f"{c} between -1 and 0 (a fractional position just below the first voxel: truncation toward zero would call it voxel 0)", {c: -0.4}, False))
+        cases.append((f"{c} in the last voxel (dim - 0.4)", {c: base[shp[k]] - 0.4}, True))
         cases.append((f"{c} beyond the mask", {c: base[shp[k]] + 2.0}, False))
     cases.append(("z beyond shape[2] but within shape[1]", {"z": 40.0}, False))
     for label, upd, want in cases:
@@ -313,7 +318,9 @@ def o94(ctx):
     if look:
         idx = look[0].args[1]
         if isinstance(idx, Seq) and len(idx.items) == 3:
-            okl = all(tm.equivalent(no_sel(to_term(idx.items[k])), mk("int", mk("add", sym(c), sym("shift_" + c))), seed_tag="lk" + c)
+            # the voxel holding the position; the lookup only happens for positions inside the volume (>= 0), where truncation and floor agree
+            inside_ = {s_: pos_sampler(0.0, 40.0) for c_ in "xyz" for s_ in (c_, "shift_" + c_)}
+            okl = all(tm.equivalent(no_sel(to_term(idx.items[k])), T("floor", mk("add", sym(c), sym("shift_" + c))), samplers=inside_, seed_tag="lk" + c)
                       for k, c in enumerate("xyz"))
     if not okl:
         ctx.finding(q, look[0].node if look else fn, "the mask must be looked up at the particle's (x, y, z) voxel in axis order", look[0].node if look else fn, m)
@@ -496,6 +503,40 @@ def o99(ctx):
                             f"row keeps its own tomogram number and dimensions; it becomes {tm.show(d.cols[c])[:100]}", last_store(it, d, c) or fn, m)
         if tomo_idx is None:
             same_rows_same_order(ctx, q, d, f, "dimensions_load(<N x 4 table>) keeps the rows of the table", fn, m)
+    # a tilt.com file: x, y = FULLIMAGE, z = THICKNESS as written in the file, and no other entry of the file has a say (the array that is filled
+    # element by element is outside the interpreter's model, so this branch is read off the syntax tree)
+    blocks = [n for n in ast.walk(fn) if isinstance(n, ast.If) and isinstance(n.test, ast.Call) and isinstance(n.test.func, ast.Attribute)
+              and n.test.func.attr == "endswith" and n.test.args and isinstance(n.test.args[0], ast.Constant) and n.test.args[0].value == ".com"]
+    if len(blocks) != 1:
+        raise Unsupported("dimensions_load: branch for .com files not found", fn)
+    body = blocks[0].body
+    rd = [a_ for st_ in body for a_ in ast.walk(st_) if isinstance(a_, ast.Assign) and isinstance(a_.value, ast.Call)
+          and (ctx.prog.resolve(m, a_.value.func) or "").endswith("imod_com_read") and isinstance(a_.targets[0], ast.Name)]
+    if len(rd) != 1:
+        raise Unsupported("dimensions_load: call of imod_com_read in the .com branch not found", blocks[0])
+    dname = rd[0].targets[0].id
+    keys = []
+    for st_ in body:
+        for x_ in ast.walk(st_):
+            if isinstance(x_, ast.Subscript) and isinstance(x_.value, ast.Name) and x_.value.id == dname and isinstance(x_.slice, ast.Constant):
+                keys.append((x_.slice.value, x_))
+            if isinstance(x_, ast.Call) and isinstance(x_.func, ast.Attribute) and isinstance(x_.func.value, ast.Name) and x_.func.value.id == dname \
+                    and x_.args and isinstance(x_.args[0], ast.Constant):
+                keys.append((x_.args[0].value, x_))
+    ctx.count(1, {"entries of tilt.com read for the dimensions": sorted({k_ for k_, _ in keys})})
+    for k_, node_ in keys:
+        if k_ not in ("FULLIMAGE", "THICKNESS"):
+            ctx.finding(q, node_, f"dimensions_load(<tilt.com>) also reads the entry {k_!r}: the dimensions are FULLIMAGE (x, y) and THICKNESS (z) as written "
+                        "in the file -- the wedge list and the out-of-bounds test use them together with SHIFT from the same file, in the same (unbinned) "
+                        "pixels", node_, m)
+    if {k_ for k_, _ in keys} >= {"FULLIMAGE", "THICKNESS"}:
+        arith = [x_ for st_ in body for x_ in ast.walk(st_) if isinstance(x_, (ast.BinOp, ast.AugAssign))]
+        ctx.count(1)
+        if arith and not any(k_ not in ("FULLIMAGE", "THICKNESS") for k_, _ in keys):
+            ctx.finding(q, arith[0], f"the .com branch computes with the dimensions (`{norm_text(arith[0])[:60]}`): they must be handed on as written in the file",
+                        arith[0], m)
+    else:
+        ctx.finding(q, blocks[0], "dimensions_load(<tilt.com>) must take x, y from FULLIMAGE and z from THICKNESS", blocks[0], m)
     # one triplet for all tomograms
     it = Interp(ctx.prog, no_inline=("ioutils.tlt_load",))
     f = Frame({k: sym(f"in:{k}") for k in range(3)}, [0, 1, 2], name="dims_in")
